@@ -271,20 +271,15 @@ class Clock:
             if not self.pool:
                 raise Poison("clock pool exhausted")
             us = self.pool.pop(0)
-            # Ackermann-style axioms (FK lemmas K2/K3): functional, monotone in ticks, 0 at 0
-            ok = us >= 0
-            if ticks == 0:
-                ok = ok and us == 0
+            # Ackermann-style axioms (FK lemmas K2/K3): functional, monotone in ticks, 0 at 0.
+            # Written with non-short-circuit operators so that no path fork happens here.
+            ok = (us >= 0) & ((ticks != 0) | (us == 0))
             for (t2, b2, r2, u2) in self.log:
                 if b2 is bpm or b2 == bpm:
-                    if t2 == ticks:
-                        ok = ok and u2 == us
-                    elif t2 < ticks:
-                        ok = ok and u2 <= us
-                    else:
-                        ok = ok and us <= u2
-            if not ok:
-                self.assume_ok = False
+                    ok = ok & ((t2 != ticks) | (u2 == us))
+                    ok = ok & ((t2 >= ticks) | (u2 <= us))
+                    ok = ok & ((t2 <= ticks) | (us <= u2))
+            self.assume_ok = self.assume_ok & ok
         else:
             raise Poison("unknown clock policy")
         self.log.append((ticks, bpm, resolution, us))
